@@ -259,6 +259,8 @@ where
 
         let mut files = HashMap::new();
         let mut dirs = HashMap::new();
+        // The root directory always exists, even in an empty archive
+        dirs.insert(SharedString::from(""), Vec::new());
 
         for file in archive.entries_with_seek()? {
             register_file(file?, &mut files, &mut dirs, &mut id_builder)
